@@ -69,3 +69,10 @@ $(BIN)/hist.asanexc: $(HOA)/hist_main.o $(HOA)/capspec_gen.o $(B)/lib/asanexc/li
 $(BIN)/leak.%: $(HO)/leak_main.o $(B)/lib/%/libmasa.a
 	@mkdir -p $(BIN)
 	$(CXX) -o $@ $(HO)/leak_main.o $(B)/lib/$*/libmasa.a -lrapidcheck
+
+$(HOA)/fuzz_names.o: $(E)/fuzz_names.cpp $(EHDR) $(GEN)/masa.h $(GEN)/api_gen.hpp
+	@mkdir -p $(HOA)
+	$(CLX) $(CLXF) -fsanitize=fuzzer-no-link -c $< -o $@
+$(BIN)/fuzz_names.asanexc: $(HOA)/fuzz_names.o $(HOA)/capspec_gen.o $(B)/lib/asanexc/libmasa.a
+	@mkdir -p $(BIN)
+	$(CLX) -fsanitize=fuzzer,address,undefined -o $@ $(HOA)/fuzz_names.o $(HOA)/capspec_gen.o $(B)/lib/asanexc/libmasa.a
